@@ -214,8 +214,10 @@ class PixCoord:
         separation : `numpy.array`
             The separation in pixels.
         """
-        dx = other.x - self.x
-        dy = other.y - self.y
+        # the offsets are computed in float64: integer coordinate arrays
+        # keep their dtype and their differences would wrap around
+        dx = np.subtract(other.x, self.x, dtype=float)
+        dy = np.subtract(other.y, self.y, dtype=float)
         return np.hypot(dx, dy)
 
     @property
@@ -243,8 +245,9 @@ class PixCoord:
         coord : `PixCoord`
             The rotated coordinates (which is an independent copy).
         """
-        dx = self.x - center.x
-        dy = self.y - center.y
+        # (float64 offsets: integer coordinate arrays would wrap around)
+        dx = np.subtract(self.x, center.x, dtype=float)
+        dy = np.subtract(self.y, center.y, dtype=float)
         vec = np.array([dx, dy])
 
         cosa, sina = np.cos(angle), np.sin(angle)
